@@ -11,11 +11,12 @@
      in_world facts sorted W g     g is an input fact present in world W
      Deriv rules base f            f is derivable from the facts satisfying `base` by ground instances of the rules
      world_prob table g            sum over all 2^n worlds W of weight(W) * g W, weight(W) = prod (p_i | 1 - p_i)
-   All statements are partial-correctness statements about a returned result (the driver loop is modelled with
-   fuel); the model is exact rational arithmetic. *)
+   Sections (1)-(4) are partial-correctness statements about a returned result (the driver loop is modelled with
+   fuel); section (5) proves that the driver does return, with an explicit fuel bound, for the Boolean, min-max and DNF
+   structures (and for any structure with a bounded height function).  The model is exact rational arithmetic. *)
 Require Import KV.Prov.Model KV.Prov.Instances KV.Prov.Spec KV.Prov.Annot KV.Prov.ProvProofs KV.Prov.HomProofs
         KV.Prov.DnfProofs KV.Prov.SpecFacts KV.Prov.WmcProofs KV.Prov.SeedProofs KV.Prov.MatcherProofs KV.Prov.InstProofs
-        KV.Prov.Negation KV.Prov.NegProofs KV.Prov.NegClass KV.Prov.SpecProofs KV.Prov.TTProofs.
+        KV.Prov.Negation KV.Prov.NegProofs KV.Prov.NegClass KV.Prov.SpecProofs KV.Prov.TTProofs KV.Prov.TermProofs KV.Prov.TermInst.
 Open Scope N_scope.
 
 (* ===== (1) every DNF operation denotes the Boolean operation, in every world ============================== *)
@@ -312,6 +313,95 @@ Proof.
          | exact (bool_stored fuel rules facts seeds all ts Hs Hr f)].
 Qed.
 Print Assumptions C06_boolean_positive.
+
+(* ===== (5) termination: the driver returns ======================================================================= *)
+(* Generic ("idempotent + finite height"): U is a finite universe of facts closed under the ground rule instances, h a
+   height on tags that plus never decreases, that the equality test respects, that strictly increases whenever
+   update_disjunction reports a change (for tags satisfying an invariant of all generated tags) and is bounded by hmax.
+   Every round that does not end the loop strictly increases (number of stored facts + sum of the heights of their
+   tags) <= |U| * (hmax + 1); hence fuel |U| * (hmax + 1) + 1 suffices. *)
+Theorem C06_driver_terminates :
+  forall (K : Type) (SR : semiring K) (sols : matcher) (rules : list rule),
+    sols_spec sols rules ->
+    forall (all0 : list fact) (tag0 : fact -> K) (U : list fact),
+      (forall ms cs, GI rules ms cs -> incl ms U -> incl cs U) ->
+      forall (h : K -> nat) (hmax : nat) (inv : K -> Prop),
+        (forall a b, (h a <= h (plus SR a b))%nat) ->
+        (forall a b, (h b <= h (plus SR a b))%nat) ->
+        (forall a b, eqb SR a b = true -> h a = h b) ->
+        (forall a b, inv a -> inv b -> eqb SR a (plus SR a b) = false -> (h a < h (plus SR a b))%nat) ->
+        (forall a, inv a -> (h a <= hmax)%nat) ->
+        (forall f k, Gen SR rules all0 tag0 f k -> inv k) ->
+        forall ts0 : tstore,
+          (forall f, In f all0 -> get_tag SR ts0 f = tag0 f) -> NoDup all0 -> incl all0 U ->
+          exists res, drive SR sols (S (length U * S hmax)) rules all0 init_strat ts0 = Some res.
+Proof. exact @drive_terminates. Qed.
+Print Assumptions C06_driver_terminates.
+
+(* the universe: all triples over the constants of the rules and of the input facts (|consts|^3 facts); it contains the
+   input facts and is closed under the ground instances of safe rules *)
+Theorem C06_universe :
+  forall rules facts, safe rules = true ->
+    incl facts (universe rules facts) /\
+    (forall ms cs, GI rules ms cs -> incl ms (universe rules facts) -> incl cs (universe rules facts)) /\
+    length (universe rules facts) =
+      (length (consts rules facts) * (length (consts rules facts) * length (consts rules facts)))%nat.
+Proof.
+  intros rules facts Hs. split; [apply facts_in_universe|]. split; [apply universe_closed; exact Hs | apply triples_length].
+Qed.
+Print Assumptions C06_universe.
+
+(* Boolean tags have height 1 *)
+Theorem C06_boolean_terminates :
+  forall rules facts seeds, safe rules = true -> NoDup facts ->
+    exists res, infer bool_prov (S (length (universe rules facts) * 2)) rules facts seeds = Some res.
+Proof. exact bool_terminates. Qed.
+Print Assumptions C06_boolean_terminates.
+
+(* min-max tags range over {0, 1} and the (clamped) seed probabilities: height <= number of these values *)
+Theorem C06_minmax_terminates :
+  forall rules facts seeds, safe rules = true -> NoDup facts ->
+    exists res, infer minmax_prov (S (length (universe rules facts) * S (length (mm_values seeds)))) rules facts seeds = Some res.
+Proof. exact minmax_terminates. Qed.
+Print Assumptions C06_minmax_terminates.
+
+(* DNF tags over n seeds: every stored tag is an antichain of positive clauses over the seed variables; for such formulas
+   equal denotation on all 2^n worlds implies equal clause sets (so a reported change is a strict semantic increase), and
+   the height "number of worlds in which the tag is true" is at most 2^n (a crude bound) *)
+Theorem C06_dnf_terminates :
+  forall rules facts seeds, safe rules = true -> NoDup facts ->
+    exists res, infer dnf_prov (S (length (universe rules facts) * S (length (worlds 0 (prob_table (sort_seeds seeds))))))
+                      rules facts seeds = Some res.
+Proof. exact dnf_terminates. Qed.
+Print Assumptions C06_dnf_terminates.
+
+(* total correctness for the DNF mode: with that fuel the run returns, its facts are the derivable facts and every
+   reported probability is the possible-worlds probability *)
+Theorem C06_exact_dnf_total :
+  forall rules facts seeds, safe rules = true -> NoDup facts -> NoDup (map fst seeds) ->
+    exists all (ts : tstore),
+      infer dnf_prov (S (length (universe rules facts) * S (length (worlds 0 (prob_table (sort_seeds seeds))))))
+            rules facts seeds = Some (all, ts) /\
+      (forall f, In f all <-> Deriv rules (fun g => In g facts) f) /\
+      (forall f, In f all ->
+       forall d : N -> bool,
+         (forall W, In W (worlds 0 (prob_table (sort_seeds seeds))) ->
+                    (d W = true <-> Deriv rules (in_world facts (sort_seeds seeds) W) f)) ->
+         (fact_prob dnf_prov seeds ts f == world_prob (prob_table (sort_seeds seeds)) (fun W => ind (d W)))%Q).
+Proof.
+  intros rules facts seeds Hs Hn Hnd. destruct (dnf_terminates rules facts seeds Hs Hn) as [[all ts] Hrun].
+  exists all, ts. split; [exact Hrun|]. split.
+  - exact (dnf_facts _ rules facts seeds all ts Hs Hnd Hrun).
+  - exact (dnf_exact _ rules facts seeds all ts Hs Hnd Hrun).
+Qed.
+Print Assumptions C06_exact_dnf_total.
+
+Theorem C06_dnf_canonical :
+  forall table phi psi,
+    dnf_inv (N.of_nat (length table)) phi -> dnf_inv (N.of_nat (length table)) psi ->
+    (forall W, In W (worlds 0 table) -> sem W phi = sem W psi) -> dnf_eqb phi psi = true.
+Proof. exact dnf_canonical. Qed.
+Print Assumptions C06_dnf_canonical.
 
 (* the full statement "Boolean mode reports plain derivability for all probabilities in [0,1]" is FALSE for the model
    (and for the code: known finding C06-zero-probability-boolean): with `A related B` at probability 0 and
